@@ -36,7 +36,8 @@ def usable(desc, backend="numpy"):
                     ok[0] = False
                 else:
                     for j, c in enumerate(d[2]):
-                        if c[0] == "seq" and not d[3][0][j]:
+                        # (the column types of an inner sequence are read off the first record in which it is not empty)
+                        if c[0] == "seq" and not any(row[j] for row in d[3]):
                             ok[0] = False
     rec(desc)
     return ok[0]
